@@ -1,4 +1,4 @@
-//@ unit u8_batch props C13 also C14
+//@ unit u8_batch props C13 also C14 C18 C09
 // Unit U8: the transaction protocol of the batch writer (src/database/sqlite_database.rs::process_batch_write).
 // A ghost transaction state is woven at the BEGIN / ROLLBACK / COMMIT statements; every exit of the function is an
 // obligation "no transaction is left open", and COMMIT is reached only after the daily-log marks were written.
@@ -152,7 +152,7 @@ pub struct Txn { pub open: bool, pub marks_written: bool, pub commits: nat, pub 
 //@ insert after-stmt "if let Err(e) = NodeDeletionEntry::delete_all(nodes, &mut daily_log, conn) {"
                     proof { needed = needed.union(own_marks(nodes0)); }
 //@ insert-each before-stmt "daily_log.write(conn)"
-        // [every_mark_of_the_batch_is_written] the marks written with the transaction include the buckets marked by every request of the batch: nothing gathered earlier in the batch is dropped on the way
+        // [every_mark_of_the_batch_is_written]{C13,C18,C09} the marks written with the transaction include the buckets marked by every request of the batch: nothing gathered earlier in the batch is dropped on the way
         assert(needed.subset_of(daily_log.marks()));
 //@ insert-each after-stmt "conn.execute(\"BEGIN TRANSACTION\", [])"
         proof { txn = Txn { open: true, ..txn }; }
@@ -171,7 +171,7 @@ pub struct Txn { pub open: bool, pub marks_written: bool, pub commits: nat, pub 
 //@ insert-each before-stmt "conn.execute(\"COMMIT\", [])"
         // [marks_before_commit] the marks that make the daily log recompute are written inside the transaction, before COMMIT
         assert(txn.open && txn.marks_written && txn.commits == 0 && txn.rollbacks == 0);
-        // [marks_stored_before_commit] .. and their write SUCCEEDED: a failed write of the marks never leads to COMMIT
+        // [marks_stored_before_commit]{C13,C18,C09} .. and their write SUCCEEDED: a failed write of the marks never leads to COMMIT
         assert(marks_stored(daily_log));
 //@ insert-each after-stmt "conn.execute(\"COMMIT\", [])"
         proof { txn = Txn { open: false, commits: txn.commits + 1, ..txn }; }
